@@ -21,6 +21,11 @@ func c08(p *Prog, r *Report) {
 	r.Rule(R1, "FinalizeIndex returns HKDF-SHA-384(ikm=unblinded key, salt=clientKey, info=IssuerOriginAlias) of its first three arguments only, read with a checked ReadFull", 2)
 	r.Rule(R2, "client blind/sign context == attester blind context == attester unblind context == type||\"ClientBlind\"; issuer context is type||\"IssuerBlind\" (different)", 5)
 	r.Rule(R4, "the attester accepts a request key only if its full encoding equals compressed(Blind(client key, blind, type||\"ClientBlind\")) - one request key, hence one ID, per client blind", 1)
+	const R5 = "C08.origin-name-recovered-exactly"
+	r.Rule(R5, "unpadOriginName strips exactly the trailing zero bytes, so the index key used is the one registered for the origin the request names - shared with C20", 1)
+	if unpad := anchor(p, r, R5, "~/tokens/type3.unpadOriginName"); unpad != nil {
+		c20Unpad(p, r, R5, unpad)
+	}
 	r.Rule(R3, "issuer returns compressed(Blind(request key, originIndexKeys[unpad(origin)], type||\"IssuerBlind\"))", 1)
 
 	if fn := anchor(p, r, R1, nmAttFinal); fn != nil {
